@@ -254,7 +254,21 @@ func c10Descs() []desc {
 		}
 		return fmt.Sprintf("{Digits:%d Algorithm:%d Period:%d Skew:%d}", p.d, p.a, p.period, p.skew)
 	}
+	var suitesV func(i int) (otp.Suite, string)
+	// every third suite argument goes behind a pointer (*RawSuite / *SuiteConfig implement Suite as well)
 	suites := func(i int) (otp.Suite, string) {
+		su, d := suitesV(i)
+		if i%3 == 1 {
+			switch v := su.(type) {
+			case otp.RawSuite:
+				return &v, "&" + d
+			case otp.SuiteConfig:
+				return &v, "&" + d
+			}
+		}
+		return su, d
+	}
+	suitesV = func(i int) (otp.Suite, string) {
 		if i < len(aSuiteS) {
 			s, err := otp.NewRawSuite(aSuiteS[i])
 			if err != nil {
@@ -644,6 +658,9 @@ func c10Descs() []desc {
 	return ds
 }
 
+// c10MaxWait bounds the waiting one call may ask for.
+const c10MaxWait = time.Second
+
 // c10Run evaluates one argument combination: returns normally, no panic, within the statement budget.
 func c10Run(d desc, i int) (args, bad string, ran bool) {
 	var f func()
@@ -663,11 +680,18 @@ func c10Run(d desc, i int) (args, bad string, ran bool) {
 	}
 	irt.SetBudget(c10Budget)
 	defer func() { lastSteps = irt.StepCount(); irt.SetBudget(0) }()
+	// waiting the library asks for (time.Sleep, timers) is added up and skipped: a deterministic bound like the
+	// statement budget - no operation of this library has a reason to wait at all
+	irt.VirtualTime(true)
+	irt.ResetWaited()
 	var pv any
 	func() {
 		defer func() { pv = recover() }()
 		f()
 	}()
+	if w := irt.Waited(); w > c10MaxWait {
+		return args, fmt.Sprintf("asked to wait %v in total (sleeps / timers) before returning", w), true
+	}
 	if pv != nil {
 		if irt.IsBudget(pv) {
 			return args, fmt.Sprintf("did not return within %d statements (hang / work unbounded in an argument)", int64(c10Budget)), true
